@@ -32,6 +32,9 @@ Proof.
   apply feqb_eq in G. tauto.
 Qed.
 
+Lemma if_not2 {A} (z : bool) j i g f (a b : A) : ~ (j = i /\ g = f) -> (if z && ((j =? i) && feqb g f) then a else b) = b.
+Proof. intro H. destruct z; cbn [andb]; [apply if_not; exact H|reflexivity]. Qed.
+
 Ltac rdrw := repeat match goal with
   | R : (forall j g, rd ?h j g = @?rhs j g) |- context [rd ?h ?j ?g] => rewrite (R j g)
   end.
@@ -278,7 +281,8 @@ Theorem prune_graft_spec :
     (* mates *)
     rd h' fi Fmt = Some 0 /\ rd h' c Fmt = Some mm /\ (mm <> 0 -> rd h' mm Fmt = Some c) /\
     (* everything else is untouched *)
-    (forall j g, j <> fi -> j <> la -> j <> nm -> j <> nb -> j <> hd fi a -> j <> mm -> j <> c -> rd h' j g = rd h j g).
+    (forall j g, j <> fi -> j <> c -> ~ (j = la /\ g = Fnx) -> ~ (j = nm /\ g = Fpv) -> ~ (j = nb /\ g = Fpv) ->
+                 ~ (j = hd fi a /\ g = Ftl) -> ~ (j = mm /\ g = Fmt) -> rd h' j g = rd h j g).
 Proof.
   intro Htl.
   destruct graft_pieces as (Sa & Vf & Pf & Nf & Sm & Vl & Pl & Nl & Sb).
@@ -438,14 +442,19 @@ Proof.
   - split; [rdeval; rewrite Hmt, Zm; reflexivity|].
     split; [rdeval; rewrite <- Gf; exact Hmt|].
     split; [intro X; contradiction|].
-    intros j g H1 H2 H3 H4 H5 H6 H7. rdeval. reflexivity.
+    intros j g H1 H2 H3 H4 H5 H6 H7. rdrw.
+    rewrite (if_not2 _ j (hd fi a) g Ftl) by exact H6. rewrite (if_not2 _ j nb g Fpv) by exact H5.
+    rewrite (if_not j la g Fnx) by exact H3. rewrite (if_not j nm g Fpv) by exact H4. eqbs. reflexivity.
   - assert (Vm : valid h mm) by (destruct Hmm as [|[? _]]; [contradiction|assumption]).
     assert (Nmf : mm <> fi) by (destruct Hmm as [|[_ ?]]; [contradiction|assumption]).
     assert (Nmc : mm <> c) by (apply valid_neq_fresh; exact Vm).
     split; [rdeval; reflexivity|].
     split; [rdeval; rewrite <- Gf; exact Hmt|].
     split; [intros _; rdeval; reflexivity|].
-    intros j g H1 H2 H3 H4 H5 H6 H7. rdeval. reflexivity.
+    intros j g H1 H2 H3 H4 H5 H6 H7. rdrw.
+    rewrite (if_not2 _ j (hd fi a) g Ftl) by exact H6. rewrite (if_not2 _ j nb g Fpv) by exact H5.
+    rewrite (if_not2 _ j mm g Fmt) by exact H7.
+    rewrite (if_not j la g Fnx) by exact H3. rewrite (if_not j nm g Fpv) by exact H4. eqbs. reflexivity.
 Qed.
 End Graft.
 
